@@ -34,6 +34,7 @@ type c19Scenario struct {
 	Doc   string
 	Vars  map[string]string
 	Zone  string
+	Num   string  // "float64" (default) or "number": how the shared document is decoded
 	Ops   []c19Op // one per thread
 }
 
@@ -53,7 +54,11 @@ func (sc *c19Scenario) fresh() *c19Shared {
 		}
 		sh.paths = append(sh.paths, p)
 	}
-	sh.doc = mustDoc(sc.Doc, "float64")
+	num := sc.Num
+	if num == "" {
+		num = "float64"
+	}
+	sh.doc = mustDoc(sc.Doc, num)
 	if sc.Vars != nil {
 		sh.vars = sqlexec.Vars{}
 		for k, v := range sc.Vars {
@@ -217,6 +222,7 @@ var c19PathPool = []string{
 	`$.a[$y]`, `$.a[*] ? (@ > $y && @ < 3)`, `$.*`, `$.b like_regex "x" flag "q"`, `$[*].integer()`, `strict $.** ? (exists(@.b)).b`, `$.a ? (@[*] ? (@ > 1) == 2)`,
 	`$.e.abs()`, `$.e[0][0 to last] * 2`, `$.e[*] ? (@ == 1 || @ == 4)`,
 	`"2015-08-02".timestamp_tz().string()`, `$.s.timestamp().string()`, `"2015-08-02T01:00:00".timestamp_tz() < $.s.timestamp_tz()`,
+	`$.a[*].decimal(20,1)`, `+$.a[1]`, `$.a[*] ? (-@ < -1)`,
 	`(exists($.a)).type()`, `(!($.a[0] == 1)).string()`, `(($.a[0] == 1) is unknown).boolean()`, `($.a[0] + 1).abs() * 2`,
 }
 
@@ -345,6 +351,13 @@ func c19HistOps() []c19HistOp {
 		_ = p3.UnmarshalText([]byte("$.yy"))
 		return res
 	}})
+	ops = append(ops, c19HistOp{"other-paths-corpus", func(sh *c19Shared) string {
+		// a corpus of other Paths over other documents, in both number representations, exercising every
+		// numeric helper, method and predicate kind (also on negative and huge values): none of it may
+		// change what the Path under test returns afterwards
+		c19RunCorpus()
+		return "corpus"
+	}})
 	ops = append(ops, c19HistOp{"query-other-doc", func(sh *c19Shared) string {
 		items, err := sh.paths[0].Query(context.Background(), []any{float64(1), "z"}, sh.opts()...)
 		if err != nil {
@@ -355,11 +368,80 @@ func c19HistOps() []c19HistOp {
 	return ops
 }
 
+var c19CorpusTexts = []string{`-$[*]`, `+$[*]`, `$[*] + 1`, `$[*] * -1`, `1 - $[0]`, `$[0] % 2`, `$[0] / 3`, `$[*].abs()`, `$[*].floor()`, `$[*].ceiling()`, `$[*].double()`, `$[*].integer()`, `$[*].bigint()`,
+	`$[*].number()`, `$[*].decimal()`, `$[*].decimal(20,1)`, `$[*].decimal(25,3)`, `$[*].decimal(3,1)`, `$[*].decimal(19,0)`, `$[*].string()`, `$[*].boolean()`, `$[*].type()`, `$.size()`, `$[*] ? (@ > 0)`,
+	`$[*] ? (@ == 1)`, `$[*] ? (@ like_regex "^x")`, `$[*] ? (@ starts with "x")`, `$[*].datetime()`, `$[*].date()`, `$[*].timestamp_tz()`, `$.keyvalue()`, `$.**`, `$.*`, `$[*] == 1`, `$[*] < -1`, `$[last]`, `$[0 to 1]`,
+	`strict $[*].double()`, `strict -$[*]`, `$.a`, `$.b[*] + $.a`, `(-$[*]).abs()`, `(+$[*]).string()`, `$[*] ? (-@ < 0)`, `$[*] ? (@.decimal(20,1) > 0)`}
+
+var c19CorpusDocs = []string{`[-7.5,5,"x"]`, `[1,-1,"2015-08-02"]`, `{"a":-3,"b":[1,2]}`, `[-9223372036854775808,100000000000000000000,0.001]`, `[3,2,1]`, `[-1,-2,-3]`}
+
+var c19Corpus struct {
+	once  sync.Once
+	paths []*path.Path
+	docs  []any
+}
+
+func c19RunCorpus() {
+	c19Corpus.once.Do(func() {
+		for _, t := range c19CorpusTexts {
+			p, err := path.Parse(t)
+			if err != nil {
+				panic("harness: corpus path " + t + ": " + err.Error())
+			}
+			c19Corpus.paths = append(c19Corpus.paths, p)
+		}
+		for _, d := range c19CorpusDocs {
+			c19Corpus.docs = append(c19Corpus.docs, mustDoc(d, "float64"), mustDoc(d, "number"))
+		}
+	})
+	ctx := types.ContextWithTZ(context.Background(), time.UTC)
+	for _, p := range c19Corpus.paths {
+		for _, d := range c19Corpus.docs {
+			_, _ = p.Query(ctx, d, sqlexec.WithTZ())
+		}
+	}
+}
+
+// c19Alone runs every history operation of one pool path in a process of its own (one process per
+// operation) and returns the rendered results.
+func c19Alone(pathText, num string, nops int) ([]string, error) {
+	exe, err := os.Executable()
+	if err != nil {
+		return nil, err
+	}
+	out := make([]string, nops)
+	for i := 0; i < nops; i++ {
+		cmd := exec.Command(exe, "C19", "--solo", mustJSON(map[string]any{"path": pathText, "num": num, "op": i}))
+		cmd.Env = append(os.Environ(), "VERIF_INFLIGHT=")
+		b, err := cmd.Output()
+		if err != nil {
+			return nil, fmt.Errorf("solo process for op %d: %w", i, err)
+		}
+		out[i] = strings.TrimSuffix(string(b), "\n")
+	}
+	return out, nil
+}
+
+// c19SoloMain is the body of such a process.
+func c19SoloMain(arg string) {
+	var a struct {
+		Path string `json:"path"`
+		Num  string `json:"num"`
+		Op   int    `json:"op"`
+	}
+	if err := json.Unmarshal([]byte(arg), &a); err != nil {
+		fmt.Fprintln(os.Stderr, err)
+		os.Exit(2)
+	}
+	sc := &c19Scenario{Paths: []string{a.Path}, Doc: c19Doc, Vars: c19Vars, Zone: "UTC", Num: a.Num}
+	fmt.Println(c19HistOps()[a.Op].run(sc.fresh()))
+}
+
 // c19History: BFS over call sequences on one Path; state = fingerprint of the
 // Path object (private AST fields included); every operation in every reached
 // state must return what it returns in the initial state.
 func c19History(c Case, r *Run) *Failure {
-	sc := &c19Scenario{Paths: []string{c.Path}, Doc: c19Doc, Vars: c19Vars, Zone: "UTC"}
+	sc := &c19Scenario{Paths: []string{c.Path}, Doc: c19Doc, Vars: c19Vars, Zone: "UTC", Num: c.Num}
 	ops := c19HistOps()
 	maxDepth := 3
 	if c.Extra["depth"] != "" {
@@ -368,6 +450,17 @@ func c19History(c Case, r *Run) *Failure {
 	base := make([]string, len(ops))
 	for i, op := range ops {
 		base[i] = op.run(sc.fresh())
+	}
+	// "what the same call returns when run alone": each operation once more in a fresh process that
+	// does nothing else (state kept in package-level variables cannot have been touched there)
+	if alone, err := c19Alone(c.Path, sc.Num, len(ops)); err == nil {
+		for i := range ops {
+			if maskIDs(alone[i]) != maskIDs(base[i]) {
+				return &Failure{Sig: "C19/differs-from-the-call-run-alone/" + ops[i].name, Expected: "alone in a fresh process: " + alone[i], Observed: base[i] + " (in the checking process, after other calls)"}
+			}
+		}
+	} else if r != nil {
+		r.Cap("fresh-process oracle unavailable: " + err.Error())
 	}
 	build := func(hist []int) *c19Shared {
 		sh := sc.fresh()
@@ -572,7 +665,7 @@ func tail(s string, n int) string {
 // ---- run ----
 
 func runC19(r *Run) {
-	r.Rule("(a) stateless schedule exploration under a controlled cooperative scheduler (real goroutines, one runnable at a time; scheduling points = every ctx.Done() poll, i.e. every executed path item, and every lexer token for Parse): every unordered pair of entry points {Query,First,Exists,Match,String} on one shared *Path for each of 28 pool paths (regex, datetime with context zone, keyvalue, variables, nested filters, .**, subscripts, arithmetic, operands yielding an array then a scalar), every pair of pool paths sharing document and variables, triples of a 10-path core, and pairs of concurrent Parse+Query/String at token granularity; depth-first over all schedules with <= B preemptions; oracle: every call returns its solo result and the shared document/variables (incl. hidden slice capacity) are unchanged. (b) explicit-state BFS over call histories on one Path per pool path: state = reflect fingerprint of the Path (private AST fields); 11 operations (the five entry points, Parse of the same text by another holder who then re-loads its own object, Value/MarshalBinary, a cancelled silent Query, Query without WithTZ, Query on another document, and calls on other Paths whose operands deliver items and then fail); all histories of <= 2 calls are extended regardless of the fingerprint (state outside the Path), longer ones while the fingerprint is new; every operation after every history returns its initial-state result. (c) each pool operation three times on equal, freshly allocated inputs. (d) supplementary: the same bodies free-running under the race detector. non-trivial = schedules with at least one preemption")
+	r.Rule("(a) stateless schedule exploration under a controlled cooperative scheduler (real goroutines, one runnable at a time; scheduling points = every ctx.Done() poll, i.e. every executed path item, and every lexer token for Parse): every unordered pair of entry points {Query,First,Exists,Match,String} on one shared *Path for each of 28 pool paths (regex, datetime with context zone, keyvalue, variables, nested filters, .**, subscripts, arithmetic, operands yielding an array then a scalar), every pair of pool paths sharing document and variables, triples of a 10-path core, and pairs of concurrent Parse+Query/String at token granularity; depth-first over all schedules with <= B preemptions; oracle: every call returns its solo result and the shared document/variables (incl. hidden slice capacity) are unchanged. (b) explicit-state BFS over call histories on one Path per pool path, with the shared document decoded as float64 and as json.Number: state = reflect fingerprint of the Path (private AST fields); 12 operations (the five entry points, a corpus of 45 other Paths over 6 other documents in both number representations, Parse of the same text by another holder who then re-loads its own object, Value/MarshalBinary, a cancelled silent Query, Query without WithTZ, Query on another document, and calls on other Paths whose operands deliver items and then fail); all histories of <= 2 calls are extended regardless of the fingerprint (state outside the Path), longer ones while the fingerprint is new; every operation after every history returns its initial-state result, and that result equals what the operation returns alone in a fresh process (one process per operation). (c) each pool operation three times on equal, freshly allocated inputs. (d) supplementary: the same bodies free-running under the race detector. non-trivial = schedules with at least one preemption")
 	B := 2
 	if r.Thorough() {
 		B = 3
@@ -656,9 +749,11 @@ func runC19(r *Run) {
 		depth = "5"
 	}
 	r.ParFor(len(c19PathPool), func(i int) {
-		c := Case{Rule: "history", Path: c19PathPool[i], Extra: map[string]string{"depth": depth}}
-		if f := c19History(c, r); f != nil {
-			r.Fail(c, f)
+		for _, num := range []string{"float64", "number"} {
+			c := Case{Rule: "history", Path: c19PathPool[i], Num: num, Extra: map[string]string{"depth": depth}}
+			if f := c19History(c, r); f != nil {
+				r.Fail(c, f)
+			}
 		}
 		zc := Case{Rule: "zone-history", Path: c19PathPool[i]}
 		if f := c19ZoneHistory(c19PathPool[i]); f != nil {
